@@ -1788,6 +1788,7 @@ def run(prop_id, tier, seed, replay=None):
 
     # ---- cases
     ctx = Ctx(prop_id, tier, seed)
+    site_report = None
     if replay:
         rp = json.load(open(replay))
         for c in rp["cases"]:
@@ -1795,6 +1796,18 @@ def run(prop_id, tier, seed, replay=None):
         if rp.get("minimized"):
             ctx.add(rp["minimized"]["kind"], rp["minimized"]["args"])
     else:
+        if prop_id == "C06":
+            # the inventory of operations that can panic, regenerated from /repo/src, against the partial
+            # operations of Model/Checked.v (covered by C06_*_never_panics).  A difference is not a verdict
+            # (a harmless rewrite changes expressions too): it widens this run's crash search to the
+            # thorough tier's case counts and is reported in the evidence.
+            import panic_sites
+            site_report = panic_sites.compare()
+            if site_report["unaccounted"] or site_report["stale_labels"]:
+                log(f"[C06] NOTE: the panic-site inventory of /repo/src differs from Model/Checked.v "
+                    f"(not covered by the theorem: {site_report['unaccounted'][:6]}; no longer in the source: "
+                    f"{site_report['stale_labels'][:6]}); crash search widened")
+                ctx.thorough = True
         P.gen(ctx)
         if tier == "thorough":
             # deeper: the families again from further PRNG streams derived from the same seed (fixed families
@@ -1960,6 +1973,11 @@ def run(prop_id, tier, seed, replay=None):
         "inflate_model_vs_flate2": {"stream_decodes_by_the_coq_model": inflate_stats["im"], "skipped_too_large": inflate_stats["is"],
                                     "disagreements_with_the_library": inflate_stats["ig"], "examples": inflate_stats["examples"]},
         "tie_mismatches": len(tie_bad), "relation_failures": len(rel_bad),
+        **({"panic_site_inventory": {"sites_in_source": site_report["sites_in_source"],
+                                     "covered_by_checked_model_theorems": len(site_report["proved_in_checked_model"]),
+                                     "reviewed_cannot_fail": site_report["reviewed_cannot_fail"],
+                                     "not_covered": site_report["unaccounted"], "stale_labels": site_report["stale_labels"]}}
+           if site_report else {}),
         "corpus_cases": len(cctx.cases), "corpus_mismatches": len(corpus_bad),
         "known_finding_hits": {k: len(v) for k, v in known_hits.items()},
         "verdict_histogram": hist,
